@@ -546,3 +546,83 @@ def load_wide_subsets(mask: int, indirect: bool, step: int) -> bool:
     indirect, step = mark.pickb(indirect), mark.pick(step, 1, 2)
     with mark.untraced():
         return _load_wide(hi * 256 + lo, indirect, step)
+
+
+# ---------------------------------------------------------------------------------------------------- two log passes in one logical file: normal (type 0) and alternate (type 1) data
+
+def _two_passes(k, t0, t1, t2, t3, tif):
+    """header, DFSR A (normal data), k records of A, DFSR B (alternate data), then 4 records of types t0..t3 (0 = A, 1 = B), trailer:
+    both log passes keep collecting their records, whichever DFSR came last."""
+    chs_a, chs_b = CHS, [CHS[0], (b'CAL ', b'IN  ', 4, 1, 73)]
+    lrs = [L.file_head_tail(128), L.dfsr(chs_a, False, data_type=0)]
+    kinds = [128, 64]
+    model = {0: [], 1: []}
+    recpos = {0: [], 1: []}
+
+    def rec(t):
+        frames = []
+        for f in range(2):
+            g = len(model[t])
+            row = [1000 - 60 * g, 7 * g + 1, -g] if t == 0 else [5000 - 60 * g, 3 * g + 2]
+            model[t].append(row)
+            frames.append(L.i32(row[0]) + L.i32(row[1]) + (L.i16(row[2]) if t == 0 else b''))
+        recpos[t].append(len(lrs))
+        lrs.append(L.data_record(frames, None, data_type=t))
+    for _ in range(k):
+        rec(0)
+    lrs.append(L.dfsr(chs_b, False, data_type=1))
+    kinds.append(64)
+    for t in (t0, t1, t2, t3):
+        rec(t)
+    lrs.append(L.file_head_tail(129))
+    kinds.append(129)
+    data, pos = L.physical(lrs, tif, None)
+    sf = SymFile(data)
+    f = File.FileRead(sf, 'id', False)
+    idx = FileIndexer.FileIndex(f)
+    mark.hit()
+    if list(idx.lrTypeS) != kinds:
+        return False
+    passes = [p.logPass for p in idx.genLogPasses()]
+    if len(passes) != 2:
+        return False
+    for t, lp in enumerate(passes):
+        rows = model[t]
+        if lp.rle.totalFrames() != len(rows):
+            return False
+        if len(rows) == 0:
+            continue
+        if lp.xAxisFirstVal != rows[0][0]:
+            return False
+        g = 0
+        for ri in recpos[t]:
+            for o in range(2):
+                if lp.rle.tellLrForFrame(g) != (pos[ri], o):
+                    return False
+                g += 1
+        lp.setFrameSet(f, slice(0, len(rows), 1), None)
+        fs = lp.frameSet
+        if fs.numFrames != len(rows):
+            return False
+        for i, row in enumerate(rows):
+            if [float(v) for v in fs.frame(i)] != [float(v) for v in row]:
+                return False
+        if len(rows) >= 3:
+            lp.setFrameSet(f, slice(1, len(rows), 2), [1])
+            fs = lp.frameSet
+            sel = list(range(1, len(rows), 2))
+            for i, g_ in enumerate(sel):
+                if [float(v) for v in fs.frame(i)] != [float(rows[g_][0]), float(rows[g_][1])]:
+                    return False
+    return True
+
+
+def two_log_passes(k: int, t0: bool, t1: bool, t2: bool, t3: bool, tif: bool) -> bool:
+    """
+    pre: 0 <= k <= 2
+    post: _
+    """
+    k = mark.pick(k, 0, 2)
+    t0, t1, t2, t3, tif = mark.pickb(t0), mark.pickb(t1), mark.pickb(t2), mark.pickb(t3), mark.pickb(tif)
+    with mark.untraced():
+        return _two_passes(k, int(t0), int(t1), int(t2), int(t3), tif)
